@@ -9,6 +9,7 @@ from vlib import geom
 from vlib.geom import sym_grid
 
 PROPERTY = "C03"
+TECHNIQUE = 'concolic ATen-level symbolic execution + z3 (QF_NRA/LIA, integer sizes symbolic); internal allclose assertions of Grid._resize additionally re-interpreted over IEEE binary32 (QF_FP: z3, then the cvc5 binary on the same SMT-LIB text), models replayed in float32'
 EXPLANATION = (
     "Bounded symbolic execution + SMT. Grid derivation methods are executed on grids with symbolic spacing, center and rotation; sizes are "
     "integer variables where the method only uses the size tensor (resize, reshape, downsample, upsample) and enumerated otherwise. "
